@@ -39,9 +39,12 @@ pub fn judge_line(rep: &mut Report, p: &mut Parser, prior: &[(Vec<u8>, bool)], l
         }
         Scan::Reject(_) => {
             verdict = "reject";
-            if out.is_ok() {
+            // whether a malformed line may be accepted at all is C08's question; C02 only says
+            // that nothing is accepted unless the value after the first '*' equals the XOR of
+            // the bytes between the start delimiter and that '*'
+            if out.is_ok() && checksum_relation(line) != Some(true) {
                 let h = hist(prior);
-                rep.violation(PID, "malformed-accepted".into(), format!("line not in the sentence language was accepted: {}", crate::json::esc_bytes(line)), || mon::replay_history(&h, shape));
+                rep.violation(PID, "accepted-without-matching-checksum".into(), format!("accepted although no matching checksum follows the body: {}", crate::json::esc_bytes(line)), || mon::replay_history(&h, shape));
             }
         }
         Scan::Accept(f) => {
@@ -95,6 +98,30 @@ pub fn judge_line(rep: &mut Report, p: &mut Parser, prior: &[(Vec<u8>, bool)], l
     });
     rep.class(format!("{}|{}|{}|{}", shape, state, poscls, verdict));
     rep.count(verdict);
+}
+
+/// C02's relation on an arbitrary line: XOR of the bytes strictly between the first start
+/// delimiter (after an optional tag block) and the first following '*', against the hex value
+/// after that '*' (first eight digits). None when there is no delimiter, '*' or hex value.
+fn checksum_relation(line: &[u8]) -> Option<bool> {
+    let mut start = 0;
+    if line.first() == Some(&b'\\') {
+        start = 1 + line[1..].iter().position(|c| *c == b'\\')? + 1;
+    }
+    if !matches!(line.get(start), Some(b'!') | Some(b'$')) {
+        return None;
+    }
+    let body_start = start + 1;
+    let star = body_start + line[body_start..].iter().position(|c| *c == b'*')?;
+    let digits: Vec<u32> = line[star + 1..].iter().map_while(|c| (*c as char).to_digit(16)).take(8).collect();
+    if digits.is_empty() {
+        return None;
+    }
+    let v = digits.iter().fold(0u64, |a, d| a * 16 + *d as u64);
+    if v > 0xff {
+        return None;
+    }
+    Some(nmea_ref::xor(&line[body_start..star]) as u64 == v)
 }
 
 fn position_class(line: &[u8], pos: usize) -> &'static str {
